@@ -49,6 +49,6 @@ CLAIM = dict(
  text='For the listed container kinds the solver shows, for EVERY shape within the stated extents, every flat offset and every in-shape multi-index: '
       'strides are the trailing products, indices(offset) lies inside the shape, offset/indices are mutually inverse, the map is the row-major Horner form '
       '(hence order preserving and bijective), ndindex agrees, and row-/column-major arrays address the same logical element at the Horner positions of their layout. '
-      'Huge shapes are per-query constants with the whole offset space symbolic (cvc5 integer encoding).',
+      'Huge shapes are per-query constants with the whole offset space symbolic (cvc5 integer encoding). The all-constant instantiations (compile-time offset k_ct for every k of the constant shape (2,3,4)) equal the run-time function and the Horner form.',
  note='Bounded: dims 1..6, extents <= 8 (quick) / 16 (thorough) symbolic; huge shapes enumerated (seeded), optional queries that time out are listed as no-verdict and not counted. '
       'Trusted: clang-14 -O1 lowering, engine/ll2c.py, CBMC; validated per run by gate (translated C vs g++ build) and witness assertions.')
